@@ -2,6 +2,7 @@ import Proofs.Lemmas.Batch
 import Pose.Gen.Handled
 import Pose.Gen.LTypes
 import Pose.Gen.Purity
+import Pose.Gen.Creations
 /-!
 # C06 — batching, broadcasting and views are transparent; patching is undone
 
@@ -619,6 +620,18 @@ theorem effect_inplace_local {α : Type} (st : Store α) (self : Nat) (val : α)
 alias one of its arguments** — a finite table regenerated from `/repo`'s source on every run (python `ast`; the alias rules
 are those of `harness/extract.py`), so `decide` is a proof about exactly this source text. -/
 theorem source_purity : ∀ f ∈ PP.Gen.functions, f.2.2.1 = true → f.2.2.2.1 = false → f.2.2.2.2 = [] := by decide +kernel
+
+/-- **Every constant the anchored code creates gets its dtype from an operand, from the caller's keywords, or is an integer
+index** — or is one of the nine reviewed conversions of python data (`reviewedCreations`).  Regenerated from the source
+on every run: a new `torch.eye(3, device=…)` without `dtype=` (seed C06-4: float32 operand + float64 default ⇒ float64
+result) no longer builds. -/
+theorem creations_dtype_explicit : ∀ c ∈ PP.Gen.creations, creationOk c = true := by decide +kernel
+
+/-- the reviewed list carries no dead entries: each one occurs in the source -/
+theorem creations_reviewed_live : ∀ r ∈ reviewedCreations, ∃ c ∈ PP.Gen.creations, (c.1, c.2.1, c.2.2.1) = r := by decide +kernel
+
+example : creationOk ("lietensor/lietensor.py", "so3Type.Jr", "torch.eye(3, device=X.device)", "implicit") = false ∧
+    creationOk ("lietensor/lietensor.py", "so3Type.Jr", "torch.eye(3, device=X.device, dtype=X.dtype)", "dtype") = true := by decide
 
 /-- the table is not vacuous: it does see the in-place API (`add_`, `identity_`, `cumops_`, …) -/
 theorem source_inplace_seen : ∃ f ∈ PP.Gen.functions, f.2.1 = "LieTensor.add_" ∧ f.2.2.2.2 ≠ [] := by decide +kernel
